@@ -720,27 +720,46 @@ func histShard(r *ev.Run, thorough bool, shard, shards int) {
 	}
 	t0 := time.Now()
 	var capped int64
+	// depth-major: every start object of this shard is expanded to depth 1 before any is expanded
+	// to depth 2, and so on — when a change makes the state space explode and the time budget ends
+	// the search, the short histories of ALL start objects have been explored (round 6: a start
+	// object late in the list was never reached, and a depth-1 violation went unreported)
+	type startCtx struct {
+		si       int
+		st       *histStart
+		seen     map[[32]byte]bool
+		frontier []histPath
+		nstates  int64
+		capped   bool
+	}
+	var ctxs []*startCtx
 	for si := range starts {
 		if si%shards != shard {
 			continue
 		}
 		st := &starts[si]
-		startStates := states
-		seen := map[[32]byte]bool{}
+		c := &startCtx{si: si, st: st, seen: map[[32]byte]bool{}, frontier: []histPath{{}}}
 		o0 := st.make()
-		seen[histKey(o0)] = true // the state key is taken before anything is queried
+		c.seen[histKey(o0)] = true // the state key is taken before anything is queried
 		obs0 := safeRun(func() string { return observables(o0) })
 		if st.isNil {
 			obs0 = safeRun(func() string { return lib.Observe(o0).String() })
 		}
 		firstObs[logicalKey(si, ops, nil)] = obs0
 		states++
-		frontier := []histPath{{}}
-		for d := 0; d < depth && len(frontier) > 0; d++ {
+		ctxs = append(ctxs, c)
+	}
+	for d := 0; d < depth; d++ {
+		for _, c := range ctxs {
+			si, st, seen, frontier := c.si, c.st, c.seen, c.frontier
+			if len(frontier) == 0 || c.capped {
+				continue
+			}
 			var next []histPath
 			for _, p := range frontier {
-				if states-startStates > stateCap || time.Since(t0) > budget || r.Violations() > 200 {
+				if c.nstates > stateCap || (d > 0 && time.Since(t0) > budget) || r.Violations() > 200 {
 					capped++
+					c.capped = true
 					break
 				}
 				for oi := range ops {
@@ -833,6 +852,7 @@ func histShard(r *ev.Run, thorough bool, shard, shards int) {
 					}
 					seen[k] = true
 					states++
+					c.nstates++
 					np := histPath{ops: full, muts: p.muts}
 					if op.kind == 'm' {
 						np.muts++
@@ -840,7 +860,7 @@ func histShard(r *ev.Run, thorough bool, shard, shards int) {
 					next = append(next, np)
 				}
 			}
-			frontier = next
+			c.frontier = next
 		}
 	}
 	if sha256.Sum256([]byte(globalsDump())) != g0 {
